@@ -396,7 +396,7 @@ example : louvainPinned.coreOK = false ∧ (louvainPinned.mustWrite.all fun b =>
 
 /-- **Full statement for `set_params`** (every parameter `Algorithm.set_params` accepts, `__init__` canonicalising the
     derived ones with an arbitrary function `canon` while `set_params` stores the raw value). It is **false**
-    (`set_params_on_derived_not_history_independent`): what is proved is `history_independent`, where `set_params`
+    (`set_params_on_derived_not_history_independent`): what is proved (the `_partial` of this statement) is `history_independent`, where `set_params`
     touches only parameters that `__init__` stores unchanged. The classes that still have derived accepted parameters
     are listed in the evidence (`set_params_on_derived`) and exercised by the harness with non-canonical values. -/
 def history_independent_setparams_full : Prop :=
@@ -419,13 +419,6 @@ theorem set_params_on_derived_not_history_independent : ¬ history_independent_s
       exact Or.inr (by decide)) "labels_" (by decide) (by decide)
   revert this
   decide
-
-/-- what is proved about `set_params`: `history_independent` restricted to the parameters `__init__` stores unchanged
-    (`Op.wf`); missing: the derived parameters of the statement above. -/
-theorem history_independent_setparams_partial {Inp : Type} (e : Est) (hok : e.coreOK = true) (sem : Sem e Inp)
-    (c0 p : Store) (ops : List (Op Inp)) (hops : ∀ op ∈ ops, op.wf e) (x : Inp) (a : String) (ha : a ∉ e.logs) :
-    sem.fit (sem.run (e.fresh c0 p) ops) x a = sem.fit (e.fresh c0 (paramsAfter p ops)) x a :=
-  history_independent e hok sem c0 p ops hops x a ha
 
 /-- **The generated obligation of a class implies the hypothesis of `history_independent` for the flattened
     description** — the object together with the attribute objects it refits (`self.solver`, `self._clustering_method`,
@@ -493,6 +486,24 @@ theorem uncontrolled_source_changes_draws (r : Rng) (hr : r.ok = false) (hinit :
   ⟨fun seed _ => seed, fun _ => 0, 0, 1, 2, 0, draw_entropy_dep r hr hinit⟩
 
 example : (Rng.cRand "leiden_core.optimize_refine_core").ok = false ∧ (Rng.atFit "random_state").ok = true := by decide
+
+/-- an implementation of the repaired Louvain shape in the sense of `RSem`: the label is the first draw of its only
+    source (a generator created from the seed attribute) -/
+def seededRSem : RSem louvainSeeded Unit where
+  wr := fun _ _ _ => ["labels_"]
+  new := fun _ _ d => fun _ => d 0 0
+
+/-- non-vacuity of `rerun_deterministic`: the hypothesis holds for the repaired shape, the label is a function of the
+    seed (here seed 3, generator `draw`), whatever `ent` is; for the pinned Leiden source (`cRand`) the same
+    implementation returns `ent` itself -/
+example : louvainSeeded.rng.all Rng.ok = true ∧
+    seededRSem.fit (fun s k => draw s k) (fun _ => 3) () 0 11 "labels_" = draw 3 0 ∧
+    seededRSem.fit (fun s k => draw s k) (fun _ => 3) () 0 99 "labels_" = draw 3 0 := by decide
+
+example :
+    let leidenPinned : Est := { louvainSeeded with rng := [.cRand "optimize_refine_core"] }
+    let sem : RSem leidenPinned Unit := { wr := fun _ _ _ => ["labels_"], new := fun _ _ d => fun _ => d 0 0 }
+    sem.fit (fun seed _ => seed) (fun _ => 3) () 0 11 "labels_" ≠ sem.fit (fun seed _ => seed) (fun _ => 3) () 0 99 "labels_" := by decide
 
 /-- a conforming implementation of the repaired Louvain shape: the label is the first draw of the generator that
     `fit` creates from the seed parameter -/
@@ -608,12 +619,6 @@ theorem check_random_state_instance_same (b : List (String × String)) (hb : crs
       simpa using h3
     · simp at h3
   exact crs_inst b hgoal g w
-
-/-- **The generated obligation implies the hypothesis of `history_independent`**: a class that passes
-    `Est.historyOK` (with any table and fuel) passes `coreOK`. -/
-theorem historyOK_implies_coreOK (tbl : List Est) (fuel : Nat) (e : Est) (h : e.historyOK tbl fuel = true) :
-    e.coreOK = true :=
-  historyOK_coreOK tbl fuel e h
 
 example : louvainSeeded.historyOK [louvainSeeded] 2 = true := by decide
 
